@@ -354,11 +354,14 @@ func (fr *frame) alloc(in *ssa.Alloc, reach Term, h Heap) Heap {
 	x.regKey(keyAlloc, "Int")
 	x.sc.assert(app(">", r, x.hget(h, keyAlloc)))
 	x.sc.assert(app(">", r, "0"))
+	// a fresh object's own address is not the address of a field embedded in another object
+	x.sc.declFun("embtag", []string{"Int"}, "Int")
+	x.sc.assert(eq(app("embtag", r), "0"))
 	h = h.set(keyAlloc, r)
 	fr.vals[in] = Val{ts: []Term{r}}
 	h = x.zeroInit(h, Val{ts: []Term{r}}, t)
 	if !escapes(in) {
-		x.localAllocs = append(x.localAllocs, localAlloc{ref: r, keys: x.keysOfAlloc(t)})
+		x.localAllocs = append(x.localAllocs, localAlloc{ref: r, keys: x.keysOfAlloc(t), alloc: in})
 	}
 	return h
 }
